@@ -161,6 +161,43 @@ def Server.step {V : Type} (o : Ops V) (guarded : Bool) (dflt : List V) (sv : Se
 def Server.run {V : Type} (o : Ops V) (guarded : Bool) (dflt : List V) (sv : Server V) (ops : List (Op V)) : Server V :=
   ops.foldl (Server.step o guarded dflt) sv
 
+/-! Histories in which a flush can also fail or die (C18: "if the process dies at any moment
+    during a flush …").
+    * `failFlush`: `provider.Flush` returns an error (provider down, EncodeJSONFile failing before
+      it has touched the table file): `Flush` returns that error *before* it clears the change
+      lists — nothing changes, the pending changes wait for the next `Flush`.
+    * `crashFlush persisted`: `Flush` is called and the process dies inside it; the server is then
+      started again.  `persisted` says whether the table file was already replaced when the
+      process died — by `Props.C18.c18_crash_atomic` / `c18_crash_leaves_old_or_new_table` these
+      are the only two outcomes for the regenerated program of EncodeJSONFile, whichever crash
+      point and however many bytes of a write in progress.  When the guard returns early the
+      file is not touched. -/
+inductive COp (V : Type) where
+  | op (o : Op V)
+  | failFlush
+  | crashFlush (persisted : Bool)
+  deriving Repr
+
+def Server.cstep {V : Type} (o : Ops V) (guarded : Bool) (dflt : List V) (sv : Server V) : COp V → Server V
+  | .op x => Server.step o guarded dflt sv x
+  | .failFlush => sv
+  | .crashFlush persisted =>
+    match flush guarded sv.st with
+    | (_, none) => (Server.boot o dflt sv.disk).1
+    | (_, some full) => (Server.boot o dflt (if persisted then .table full else sv.disk)).1
+
+def Server.crun {V : Type} (o : Ops V) (guarded : Bool) (dflt : List V) (sv : Server V) (ops : List (COp V)) : Server V :=
+  ops.foldl (Server.cstep o guarded dflt) sv
+
+/-- the same history without failing or dying flushes: a failed flush is nothing, a flush that
+    died after the file was replaced is a flush followed by a restart, one that died before is
+    just a restart -/
+def COp.plain {V : Type} : COp V → List (Op V)
+  | .op x => [x]
+  | .failFlush => []
+  | .crashFlush true => [.flush, .restart]
+  | .crashFlush false => [.restart]
+
 /-- the representation invariant of a table: keys are distinct, every entry is filed under its
     own key, and the list holds exactly the map's entries (in this model: in the same order) -/
 structure WF {V : Type} (o : Ops V) (s : State V) : Prop where
